@@ -135,12 +135,18 @@ func (p *printer) commentsHaveNewline(list []*ast.Comment) bool {
 			// not all comments on the same line
 			return true
 		}
-		if t := c.Text; len(t) >= 2 && (t[1] == '/' || strings.Contains(t, "\n")) {
+		if t := c.Text; len(t) >= 1 && (isLineComment(t) || strings.Contains(t, "\n")) {
 			return true
 		}
 	}
 	_ = line
 	return false
+}
+
+// isLineComment reports whether a comment extends to the end of its line
+// (//-style or #-style), i.e. must be followed by a line break.
+func isLineComment(text string) bool {
+	return text != "" && (text[0] == '#' || len(text) > 1 && text[1] == '/')
 }
 
 func (p *printer) nextComment() {
@@ -477,7 +483,7 @@ func (p *printer) writeCommentPrefix(pos, next token.Position, prev *ast.Comment
 
 		// make sure there is at least one line break
 		// if the previous comment was a line comment
-		if n == 0 && prev != nil && prev.Text[1] == '/' {
+		if n == 0 && prev != nil && isLineComment(prev.Text) {
 			n = 1
 		}
 
@@ -662,8 +668,8 @@ func (p *printer) writeComment(comment *ast.Comment) {
 		p.indent = 0
 	}
 
-	// shortcut common case of //-style comments
-	if text[1] == '/' {
+	// shortcut common case of //-style (and #-style) comments
+	if isLineComment(text) {
 		p.writeString(pos, trimRight(text), true)
 		return
 	}
@@ -777,7 +783,7 @@ func (p *printer) intersperseComments(next token.Position, tok token.Token) (wro
 		// use that information to decide more directly.
 		needsLinebreak := false
 		if p.mode&noExtraBlank == 0 &&
-			last.Text[1] == '*' && p.lineFor(last.Pos()) == next.Line &&
+			!isLineComment(last.Text) && p.lineFor(last.Pos()) == next.Line &&
 			tok != token.COMMA &&
 			(tok != token.RPAREN || p.prevOpen == token.LPAREN) &&
 			(tok != token.RBRACK || p.prevOpen == token.LBRACK) {
@@ -789,7 +795,7 @@ func (p *printer) intersperseComments(next token.Position, tok token.Token) (wro
 		}
 		// Ensure that there is a line break after a //-style comment,
 		// before EOF, and before a closing '}' unless explicitly disabled.
-		if last.Text[1] == '/' ||
+		if isLineComment(last.Text) ||
 			tok == token.EOF ||
 			tok == token.RBRACE && p.mode&noExtraLinebreak == 0 {
 			needsLinebreak = true
